@@ -51,3 +51,17 @@ reg("C12",
     "percentages judged to 1e-4 for |values| <= 1000; no pre-emption inside a bytecode.",
     "TLA+ specs Progress.tla (+ fine-grain MC_ProgressConc); TLC exhaustive model check + TLC-generated histories replayed on real Progress + TLC trace validation (sequential) and TLC linearisation search over histories recorded from real threads under a deterministic scheduler",
     "DESIGN.md §4 C12, §5")
+
+reg("C17",
+  "Syntax.tla defines the source lines (split on newline, Python expandtabs column rule, blank lines at the very end aside), Clip and Expected rows; "
+  "TLC exhaustively checks a model of the syntax.py pipeline (Pygments pre-processing, ANY lexer = any token partition with <=2 cuts, ranged assembly, split, slice, numbering) "
+  "for every source of <=5 (quick) / 6 (thorough) characters over {x, space, tab, newline} x 8 ranges x numbering: the repaired design satisfies the property, each of the three design choices "
+  "of the shipped code (stripnl, unguarded skip loop, remove_suffix before split) makes TLC exhibit a defect.  6 000 (quick) / 78 000 (thorough) real renders of Syntax "
+  "(5 lexers incl. an unknown name, ranges inside/straddling/beyond, highlight_lines, word_wrap, code_width, indent guides, 4 themes, truecolor/plain, many widths) and of "
+  "Traceback.from_exception over generated modules (leading blank lines, long files, first/last failing line, multi-frame, cross-module, chained, import-time) are projected to "
+  "(number, marker, text) rows and judged row by row by TLC against the property part.  Bounded sampling plus a bounded model, not a proof about the Python code.",
+  "Trusted: lexical gutter/panel projection (drivers/c17.py:project_rows, printed_lines, project_traceback), width classification (syn_mode), traceback.walk_tb as ground truth. "
+  "Texts compared modulo trailing spaces; cropped rows (word_wrap off, narrow width) only as prefixes; spaces at wrap breaks may be absorbed; indent-guide characters accepted only over leading blanks; "
+  "line_range judged only with line numbers; no control characters other than newline and tab; marker position in Syntax (non-traceback) and traceback window shape are DRIFT-only.",
+  "TLA+ spec Syntax.tla; TLC exhaustive model check of the pipeline design with defect switches + TLC record validation (batch) of real Syntax/Traceback renders",
+  "DESIGN.md §4 C17")
